@@ -454,7 +454,7 @@ func C03Catalogue() []CatCase {
 	kinds := map[string]func(g *gen.G) gen.X{
 		"insert": func(g *gen.G) gen.X { return g.Insert(2) }, "update": func(g *gen.G) gen.X { return g.Update(2) },
 		"delete": func(g *gen.G) gen.X { return g.Delete(2) }, "merge": func(g *gen.G) gen.X { return g.Merge(2) },
-		"create-table": func(g *gen.G) gen.X { return g.CreateTable(2) }, "create-index": func(g *gen.G) gen.X { return g.CreateIndex(2) },
+		"create-table": func(g *gen.G) gen.X { return g.CreateTable(2) }, "create-index": func(g *gen.G) gen.X { return g.CreateIndex(2) }, "alter-table": func(g *gen.G) gen.X { return g.AlterTable(2) },
 		"create-view": func(g *gen.G) gen.X { return g.CreateView(2) }, "drop": func(g *gen.G) gen.X { return g.Drop() },
 		"truncate": func(g *gen.G) gen.X { return g.Truncate() }, "refresh": func(g *gen.G) gen.X { return g.Refresh() },
 	}
